@@ -24,7 +24,11 @@ type Case struct {
 	Desc   []string          `json:"desc,omitempty"`
 }
 
-const callTimeout = 60 * time.Second
+var callTimeout = 60 * time.Second
+
+// once a hang/crash has been confirmed, rapid only shrinks it: candidates then get a short limit so that
+// minimisation stays within the run's budget (a candidate that needs longer simply does not count as failing)
+var confirmedOnce bool
 
 var worker = &fw.Worker{}
 
@@ -64,15 +68,24 @@ func judge(c Case) (*vf.Failure, *fw.Run) {
 		if crash.Kind == "harness" {
 			return vf.NewFailure("harness:worker", crash.Detail, c), nil
 		}
-		// confirm in a fresh worker, alone, with a doubled limit
-		fresh := &fw.Worker{}
-		_, again := fresh.Call(request(c), 2*callTimeout)
-		fresh.Close()
-		if again == nil {
-			vf.Count("unconfirmed-crash:" + crash.Kind)
-			return nil, nil
+		again := crash
+		if !confirmedOnce {
+			// confirm in a fresh worker, alone, with a doubled limit
+			fresh := &fw.Worker{}
+			_, again = fresh.Call(request(c), 2*callTimeout)
+			fresh.Close()
+			if again == nil {
+				vf.Count("unconfirmed-crash:" + crash.Kind)
+				return nil, nil
+			}
+			confirmedOnce = true
+			callTimeout = 10 * time.Second
 		}
-		return vf.NewFailure(fmt.Sprintf("C03:%s:%s", again.Kind, again.Site), fmt.Sprintf("%s (%s) frontend worker %s: %s", c.Kind, strings.Join(c.Desc, " "), again.Kind, again.Detail), c), nil
+		sig := fmt.Sprintf("C03:%s:%s", again.Kind, again.Site)
+		if again.Kind == "timeout" {
+			sig = "C03:timeout:" + c.Kind // where a hanging goroutine happens to be is not a root cause
+		}
+		return vf.NewFailure(sig, fmt.Sprintf("%s (%s) frontend worker %s: %s", c.Kind, strings.Join(c.Desc, " "), again.Kind, again.Detail), c), nil
 	}
 	run := resp.Runs[0]
 	if run.Panic != "" {
